@@ -447,3 +447,623 @@ theorem leaf_fieldRT (t : Ty) (ht : IsLeafTy t) (L : LenKind) (E : Enc) (tag : O
   exact tagPrefix_facts tg hrep r
 
 end Zvt
+
+namespace Zvt
+
+/-! ### `Vec` fields -/
+
+theorem serListWith_ok (f : Val → Res Bytes) : ∀ (es : List (Val × Bytes)), (∀ e ∈ es, f e.1 = .ok e.2) →
+    serListWith f (es.map (·.1)) = .ok (es.flatMap (·.2)) := by
+  intro es
+  induction es with
+  | nil => intro _; rfl
+  | cons e es ih =>
+    intro h
+    simp only [List.map_cons, serListWith, List.flatMap_cons]
+    rw [h e (by simp), ih (fun x hx => h x (by simp [hx]))]
+
+/-- the element loop of `Vec<T>::deserialize_tagged` on the encodings of the elements followed by something
+on which the element decoder fails (without panicking). -/
+theorem vecLoop_elems (elem : Bytes → Res (Val × Bytes)) (x : Bytes)
+    (hx : ∃ err, elem x = .error err ∧ err.isPanic = false) :
+    ∀ (es : List (Val × Bytes)) (fuel : Nat) (acc : List Val),
+      (∀ e ∈ es, e.2 ≠ [] ∧ ∀ y, elem (e.2 ++ y) = .ok (e.1, y)) → es.length < fuel →
+      vecLoop elem fuel (es.flatMap (·.2) ++ x) acc = .ok (.vec (acc.reverse ++ es.map (·.1)), x) := by
+  intro es
+  induction es with
+  | nil =>
+    intro fuel acc _ hf
+    obtain ⟨err, he, hp⟩ := hx
+    cases fuel with
+    | zero => omega
+    | succ f => simp [vecLoop, he, hp]
+  | cons e es ih =>
+    intro fuel acc h hf
+    cases fuel with
+    | zero => omega
+    | succ f =>
+      obtain ⟨hne, hd⟩ := h e (by simp)
+      simp only [List.flatMap_cons, List.append_assoc, vecLoop, hd]
+      have hprog : ¬ ((es.flatMap (·.2) ++ x).length = (e.2 ++ (es.flatMap (·.2) ++ x)).length) := by
+        cases hb : e.2 with
+        | nil => exact absurd hb hne
+        | cons a as => simp; omega
+      simp only [hprog, if_false]
+      rw [ih f (e.1 :: acc) (fun y hy => h y (by simp [hy])) (by simp at hf; omega)]
+      simp
+
+/-- an element decoder with tag `tg` fails (no panic) on input that does not begin with `tg`. -/
+theorem plain_de_noStart (t : Ty) (hp : t.plain = true) (L : LenKind) (E : Enc) (tg : Nat) (x : Bytes) (hx : NoStart tg x) :
+    ∃ err, Ty.de t L E (some tg) x = .error err ∧ err.isPanic = false := by
+  have key : ∀ {α : Type} (dec : Bytes → Res (α × Bytes)),
+      ∃ err, deserTagged tagDecDefault L dec (some tg) x = .error err ∧ err.isPanic = false := by
+    intro α dec
+    unfold deserTagged stripTag
+    cases htd : tagDecDefault x with
+    | error e =>
+      refine ⟨e, rfl, ?_⟩
+      have := tagDecDefault_no_panic x
+      rw [htd] at this
+      simpa [Res.isPanic] using this
+    | ok p =>
+      obtain ⟨a, r⟩ := p
+      have hne : a ≠ tg := by
+        intro h; subst h; exact hx r htd
+      simp only [hne, ne_eq, not_false_eq_true, if_true]
+      exact ⟨.wrongTag a, rfl, rfl⟩
+  cases t with
+  | int w => simp only [Ty.de]; exact key _
+  | str => simp only [Ty.de]; exact key _
+  | bytes => simp only [Ty.de]; exact key _
+  | dateTime => simp only [Ty.de]; exact key _
+  | struct fs => simp only [Ty.de]; exact key _
+  | opt t => simp [Ty.plain] at hp
+  | vec t => simp [Ty.plain] at hp
+
+/-! ### a trailing field that takes everything -/
+
+/-- positional field that is read back at the end of the container. -/
+def PF.OKe (p : PF) : Prop :=
+  p.f.tag = none ∧ Ty.ser p.f.ty p.f.len p.f.enc none p.v = .ok p.bytes ∧
+  Ty.de p.f.ty p.f.len p.f.enc none p.bytes = .ok (p.v, [])
+
+theorem decPos_pos_then : ∀ (ps : List PF) (fs : List Field) (x : Bytes), (∀ p ∈ ps, p.OK) →
+    decPos (ps.map (·.f) ++ fs) (ps.flatMap (·.bytes) ++ x) =
+      match decPos fs x with
+      | .error e => .error e
+      | .ok (vs, r) => .ok (ps.map (·.v) ++ vs, r) := by
+  intro ps
+  induction ps with
+  | nil =>
+    intro fs x _
+    simp only [List.map_nil, List.nil_append, List.flatMap_nil]
+    cases decPos fs x with
+    | error e => rfl
+    | ok p => rfl
+  | cons p ps ih =>
+    intro fs x hok
+    have hp := hok p (by simp)
+    simp only [List.map_cons, List.cons_append, List.flatMap_cons, List.append_assoc]
+    rw [field_eta p.f, hp.1]
+    simp only [decPos]
+    have hd := hp.2.2 (ps.flatMap (·.bytes) ++ x)
+    simp only [Field.ty, Field.len, Field.enc] at hd ⊢
+    rw [hd]
+    simp only
+    rw [ih fs x (fun r hr => hok r (by simp [hr]))]
+    cases decPos fs x with
+    | error e => rfl
+    | ok q => rfl
+
+/-- **Struct with a trailing greedy field**: positional self-delimiting fields followed by one last positional
+field that takes all there is. -/
+theorem struct_payload_roundtrip_greedy (ps : List PF) (g : PF) (hps : ∀ p ∈ ps, p.OK) (hg : g.OKe) :
+    encFields (ps.map (·.f) ++ [g.f]) (ps.map (·.v) ++ [g.v]) = .ok (ps.flatMap (·.bytes) ++ g.bytes) ∧
+    decStruct (ps.map (·.f) ++ [g.f]) (ps.flatMap (·.bytes) ++ g.bytes) = .ok (.struct (ps.map (·.v) ++ [g.v]), []) := by
+  constructor
+  · apply encFields_pos ps _ _ _ hps
+    rw [field_eta g.f]
+    simp only [encFields]
+    have := hg.2.1
+    rw [hg.1]
+    simp only [Field.ty, Field.len, Field.enc] at this ⊢
+    rw [this]; simp
+  · unfold decStruct decStructWith
+    have hpos : decPos (ps.map (·.f) ++ [g.f]) (ps.flatMap (·.bytes) ++ g.bytes) = .ok (ps.map (·.v) ++ [g.v], []) := by
+      rw [decPos_pos_then ps [g.f] g.bytes hps]
+      rw [field_eta g.f, hg.1]
+      simp only [decPos]
+      have := hg.2.2
+      simp only [Field.ty, Field.len, Field.enc] at this ⊢
+      rw [this]
+    simp only [hpos]
+    have hloop : ∀ arm, tagLoop arm (([] : Bytes).length + 2) (([] : Bytes).length + 1) [] [] [] = .ok ([], [], []) := by
+      intro arm; simp [tagLoop]
+    rw [hloop]
+    simp only
+    have hreq : requiredTags (ps.map (·.f) ++ [g.f]) = [] := by
+      apply List.eq_nil_iff_forall_not_mem.mpr
+      intro t ht
+      obtain ⟨f, hf, _, htag⟩ := (mem_requiredTags _ t).mp ht
+      simp only [List.mem_append, List.mem_map, List.mem_singleton] at hf
+      rcases hf with ⟨p, hp, rfl⟩ | rfl
+      · rw [(hps p hp).1] at htag; cases htag
+      · rw [hg.1] at htag; cases htag
+    have hasm := assemble_pos ps [g.f] [g.v] [] 0 hps
+    have hlast : assemble [g.f] [g.v] [] (0 + ps.length) = [g.v] := by
+      simp only [assemble, hg.1]
+    rw [hlast] at hasm
+    simp [hreq, sortDedup, hasm]
+
+end Zvt
+
+namespace Zvt
+
+/-! ### decomposition of a field list into positional prefix, trailing greedy field, tagged fields -/
+
+structure Decomp where
+  ps : List PF
+  g : Option PF
+  qs : List TF
+
+def Decomp.gl (D : Decomp) : List PF :=
+  match D.g with
+  | none => []
+  | some p => [p]
+
+def Decomp.fields (D : Decomp) : List Field := D.ps.map (·.f) ++ (D.gl.map (·.f) ++ D.qs.map (·.f))
+def Decomp.vals (D : Decomp) : List Val := D.ps.map (·.v) ++ (D.gl.map (·.v) ++ D.qs.map (·.v))
+def Decomp.bytes (D : Decomp) : Bytes := D.ps.flatMap (·.bytes) ++ (D.gl.flatMap (·.bytes) ++ D.qs.flatMap (·.bytes))
+
+structure Decomp.OK (D : Decomp) : Prop where
+  ps : ∀ p ∈ D.ps, p.OK
+  g : ∀ p ∈ D.gl, p.OKe
+  gq : D.g ≠ none → D.qs = []
+  qs : ∀ q ∈ D.qs, q.OK
+  nd : (D.qs.map (·.t)).Nodup
+
+/-- **The struct body**, from a decomposition: `encode` writes the concatenation, `decode` reads it back with
+nothing left; and a struct of positional self-delimiting fields only hands back whatever follows it. -/
+theorem decomp_rt (D : Decomp) (h : D.OK) :
+    encFields D.fields D.vals = .ok D.bytes ∧ decStruct D.fields D.bytes = .ok (.struct D.vals, []) ∧
+    (D.g = none → D.qs = [] → ∀ x, decStruct D.fields (D.bytes ++ x) = .ok (.struct D.vals, x)) := by
+  obtain ⟨ps, g, qs⟩ := D
+  cases g with
+  | none =>
+    simp only [Decomp.fields, Decomp.vals, Decomp.bytes, Decomp.gl, List.map_nil, List.flatMap_nil, List.nil_append]
+    obtain ⟨h1, h2⟩ := struct_payload_roundtrip ps qs h.ps h.qs h.nd
+    refine ⟨h1, h2, ?_⟩
+    intro _ hq x
+    have hq' : qs = [] := hq
+    subst hq'
+    simpa using struct_positional_suffix ps h.ps x
+  | some p =>
+    have hq : qs = [] := h.gq (by simp)
+    subst hq
+    simp only [Decomp.fields, Decomp.vals, Decomp.bytes, Decomp.gl, List.map_cons, List.map_nil, List.flatMap_cons,
+      List.flatMap_nil, List.append_nil]
+    obtain ⟨h1, h2⟩ := struct_payload_roundtrip_greedy ps p h.ps (h.g p (by simp [Decomp.gl]))
+    exact ⟨h1, h2, fun hn => by simp at hn⟩
+
+theorem allTagged_decomp (D : Decomp) (h : D.OK) (ht : ∀ f ∈ D.fields, f.tag.isSome = true) : D.ps = [] ∧ D.g = none := by
+  obtain ⟨ps, g, qs⟩ := D
+  constructor
+  · cases ps with
+    | nil => rfl
+    | cons p ps =>
+      have := ht p.f (by simp [Decomp.fields])
+      rw [(h.ps p (by simp)).1] at this
+      simp at this
+  · cases g with
+    | none => rfl
+    | some p =>
+      have := ht p.f (by simp [Decomp.fields, Decomp.gl])
+      rw [(h.g p (by simp [Decomp.gl])).1] at this
+      simp at this
+
+theorem follow_noStart : ∀ (ty : Ty) (L : LenKind) (E : Enc) (t t' : Nat), Ty.follow ty L E (some t) = .noStart t' → t' = t
+  | .opt ty, L, E, t, t', h => by
+    simp only [Ty.follow] at h
+    exact follow_noStart ty L E t t' h
+  | .vec _, _, _, t, t', h => by
+    simp only [Ty.follow] at h
+    cases h; rfl
+  | .struct fs, L, _, t, t', h => by
+    simp only [Ty.follow] at h
+    split at h
+    · cases h
+    · split at h <;> cases h
+  | .int w, L, E, t, t', h => by
+    simp only [Ty.follow, leafFollow] at h
+    split at h
+    · cases h
+    · split at h <;> cases h
+  | .str, L, E, t, t', h => by
+    simp only [Ty.follow, leafFollow] at h
+    split at h
+    · cases h
+    · split at h <;> cases h
+  | .bytes, L, E, t, t', h => by
+    simp only [Ty.follow, leafFollow] at h
+    split at h
+    · cases h
+    · split at h <;> cases h
+  | .dateTime, L, E, t, t', h => by
+    simp only [Ty.follow, leafFollow] at h
+    split at h
+    · cases h
+    · split at h <;> cases h
+
+/-- canonical values of types that are neither `Option` nor `Vec` always write bytes. -/
+theorem plain_canon_present (t : Ty) (hp : t.plain = true) (L : LenKind) (E : Enc) (tag : Option Nat) (v : Val)
+    (hc : Ty.canon t L E tag v) : Present v := by
+  cases t with
+  | int w => simp only [Ty.canon] at hc; exact leafCanon_present _ _ _ _ hc
+  | str => simp only [Ty.canon] at hc; exact leafCanon_present _ _ _ _ hc
+  | bytes => simp only [Ty.canon] at hc; exact leafCanon_present _ _ _ _ hc
+  | dateTime => simp only [Ty.canon] at hc; exact leafCanon_present _ _ _ _ hc
+  | struct fs =>
+    simp only [Ty.canon] at hc
+    cases v <;> simp only [] at hc <;> first | exact False.elim hc | simp [Present]
+  | opt t => simp [Ty.plain] at hp
+  | vec t => simp [Ty.plain] at hp
+
+end Zvt
+
+namespace Zvt
+
+/-! ### the generic theorem -/
+
+theorem length_le_flatMap (es : List (Val × Bytes)) (h : ∀ e ∈ es, e.2 ≠ []) : es.length ≤ (es.flatMap (·.2)).length := by
+  induction es with
+  | nil => simp
+  | cons e es ih =>
+    have := ih (fun x hx => h x (by simp [hx]))
+    have hne := h e (by simp)
+    rw [List.flatMap_cons, List.length_append, List.length_cons]
+    have : 1 ≤ e.2.length := by
+      cases hb : e.2 with
+      | nil => exact absurd hb hne
+      | cons a as => simp
+    omega
+
+/-- a nested struct as a field, from the round trip of its body. -/
+theorem struct_field_of_payload (fs : List Field) (vs : List Val) (p : Bytes)
+    (henc : encFields fs vs = .ok p) (hdec : decStruct fs p = .ok (.struct vs, []))
+    (hsuf : fieldsTransparent fs = true → ∀ x, decStruct fs (p ++ x) = .ok (.struct vs, x))
+    (L : LenKind) (E : Enc) (tag : Option Nat) (htg : tagOK tag = true) (hL : structLenOK L = true)
+    (hlen : LenOK L p.length) : ∃ bytes, FieldRT (.struct fs) L E tag (.struct vs) bytes := by
+  have htag : ∀ t, tag = some t → tagRepresentable t := by
+    intro t h; subst h; simpa [tagOK] using htg
+  have htagged : ∀ (bytes r : Bytes), bytes = tagPrefix tagEncDefault tag ++ r →
+      ∀ tg, tag = some tg → Present (.struct vs) → bytes ≠ [] ∧ ∀ x, ∃ r', tagDecDefault (bytes ++ x) = .ok (tg, r') := by
+    intro bytes r hb tg h _
+    subst h; rw [hb]; exact tagPrefix_facts tg (htag tg rfl) r
+  have hdelim : ∀ (L : LenKind), L.delim = true → (∀ N, L ≠ .fixed N) → LenOK L p.length →
+      ∃ bytes, FieldRT (.struct fs) L E tag (.struct vs) bytes := by
+    intro L hd hnf hlen
+    have hfit := lenOK_delim L p.length hd hlen
+    have hseen : seenPayload L p = p := by
+      cases L <;> simp only [seenPayload]
+      rename_i N; exact absurd rfl (hnf N)
+    obtain ⟨bytes, hs, _, pre, _, hb⟩ := deserTagged_serTagged L tag htag p [] hfit (fun q => decStruct fs q) (.struct vs)
+      (by rw [hseen]; exact hdec)
+    refine ⟨bytes, ⟨by simp only [Ty.ser, henc]; exact hs, ?_, htagged bytes _ hb, fun h => absurd (by simp [Present]) h⟩⟩
+    intro _ x _
+    obtain ⟨bytes', hs', hd', _⟩ := deserTagged_serTagged L tag htag p x hfit (fun q => decStruct fs q) (.struct vs)
+      (by rw [hseen]; exact hdec)
+    rw [hs] at hs'
+    have : bytes = bytes' := Except.ok.inj hs'
+    rw [this]; simp only [Ty.de]; exact hd'
+  cases L with
+  | tlv => exact hdelim .tlv rfl (by intro N h; cases h) hlen
+  | llv k => exact hdelim (.llv k) rfl (by intro N h; cases h) hlen
+  | empty =>
+    by_cases htr : fieldsTransparent fs = true
+    · obtain ⟨bytes, hs, _, hb⟩ := deserTagged_serTagged_empty tag htag p [] (fun q => decStruct fs q) (.struct vs)
+        (by simpa using hdec)
+      refine ⟨bytes, ⟨by simp only [Ty.ser, henc]; exact hs, ?_, htagged bytes _ hb, fun h => absurd (by simp [Present]) h⟩⟩
+      intro _ x _
+      obtain ⟨bytes', hs', hd', _⟩ := deserTagged_serTagged_empty tag htag p x (fun q => decStruct fs q) (.struct vs) (hsuf htr x)
+      rw [hs] at hs'
+      have : bytes = bytes' := Except.ok.inj hs'
+      rw [this]; simp only [Ty.de]; exact hd'
+    · obtain ⟨bytes, hs, hd, hb⟩ := deserTagged_serTagged_end .empty (Or.inl rfl) tag htag p trivial (fun q => decStruct fs q) (.struct vs) hdec
+      refine ⟨bytes, ⟨by simp only [Ty.ser, henc]; exact hs, ?_, htagged bytes _ hb, fun h => absurd (by simp [Present]) h⟩⟩
+      intro _ x hx
+      have hf : Ty.follow (.struct fs) .empty E tag = .endOnly := by simp [Ty.follow, LenKind.delim, htr]
+      rw [hf] at hx
+      simp only [Follow.holds] at hx
+      subst hx
+      simp only [Ty.de]; exact hd
+  | fixed N => simp [structLenOK] at hL
+  | adpu => simp [structLenOK] at hL
+  | temperature => simp [structLenOK] at hL
+  | unknown s => simp [structLenOK] at hL
+
+/-- a canonical positional value always writes bytes. -/
+theorem pos_canon_present (ty : Ty) (L : LenKind) (E : Enc) (v : Val) (hwf : Ty.wf ty L E none = true)
+    (hc : Ty.canon ty L E none v) : Present v := by
+  cases ty with
+  | opt t =>
+    simp only [Ty.canon] at hc
+    cases v <;> simp only [] at hc <;> first | exact False.elim hc | (simp at hc; done) | simp [Present]
+  | vec t => simp [Ty.wf] at hwf
+  | int w => exact plain_canon_present _ rfl L E none v hc
+  | str => exact plain_canon_present _ rfl L E none v hc
+  | bytes => exact plain_canon_present _ rfl L E none v hc
+  | dateTime => exact plain_canon_present _ rfl L E none v hc
+  | struct fs => exact plain_canon_present _ rfl L E none v hc
+
+mutual
+/-- **Every field of every well-formed schema round-trips on its canonical values.** -/
+theorem Ty.rt : ∀ (t : Ty) (L : LenKind) (E : Enc) (tag : Option Nat) (v : Val),
+    Ty.wf t L E tag = true → Ty.canon t L E tag v → ∃ bytes, FieldRT t L E tag v bytes
+  | .int w, L, E, tag, v, hwf, hc => by
+    simp only [Ty.wf] at hwf; simp only [Ty.canon] at hc
+    exact leaf_fieldRT (.int w) trivial L E tag v (by simp only [Ty.follow]) hwf hc
+  | .str, L, E, tag, v, hwf, hc => by
+    simp only [Ty.wf] at hwf; simp only [Ty.canon] at hc
+    exact leaf_fieldRT .str trivial L E tag v (by simp only [Ty.follow]) hwf hc
+  | .bytes, L, E, tag, v, hwf, hc => by
+    simp only [Ty.wf] at hwf; simp only [Ty.canon] at hc
+    exact leaf_fieldRT .bytes trivial L E tag v (by simp only [Ty.follow]) hwf hc
+  | .dateTime, L, E, tag, v, hwf, hc => by
+    simp only [Ty.wf] at hwf; simp only [Ty.canon] at hc
+    exact leaf_fieldRT .dateTime trivial L E tag v (by simp only [Ty.follow]) hwf hc
+  | .opt t, L, E, tag, v, hwf, hc => by
+    simp only [Ty.wf, Bool.and_eq_true] at hwf
+    obtain ⟨hpl, hwf'⟩ := hwf
+    simp only [Ty.canon] at hc
+    cases v <;> simp only [] at hc <;> try (exact False.elim hc)
+    · -- none
+      exact ⟨[], ⟨by simp [Ty.ser], fun h => absurd h (by simp [Present]), fun _ _ h => absurd h (by simp [Present]),
+        fun _ => ⟨rfl, rfl, rfl⟩⟩⟩
+    · -- some
+      rename_i v'
+      obtain ⟨bytes, hrt⟩ := Ty.rt t L E tag v' hwf' hc
+      have hp' := plain_canon_present t hpl L E tag v' hc
+      refine ⟨bytes, ⟨by simp only [Ty.ser]; exact hrt.ser, ?_, fun tg htg _ => hrt.tagged tg htg hp',
+        fun h => absurd (by simp [Present]) h⟩⟩
+      intro _ x hx
+      simp only [Ty.follow] at hx
+      have := hrt.de hp' x hx
+      cases tag with
+      | some tg => simp only [Ty.de, this]
+      | none => simp only [Ty.de, this]
+  | .vec t, L, E, tag, v, hwf, hc => by
+    simp only [Ty.wf, Bool.and_eq_true] at hwf
+    obtain ⟨⟨⟨htg, hpl⟩, hwf'⟩, hfo⟩ := hwf
+    have hfo' : Ty.follow t L E tag = .any := by simpa using hfo
+    obtain ⟨tg, rfl⟩ : ∃ tg, tag = some tg := by
+      cases tag with
+      | none => simp at htg
+      | some tg => exact ⟨tg, rfl⟩
+    simp only [Ty.canon] at hc
+    cases v <;> simp only [] at hc <;> try (exact False.elim hc)
+    rename_i vs
+    have helems : ∃ es : List (Val × Bytes), es.map (·.1) = vs ∧ ∀ e ∈ es, FieldRT t L E (some tg) e.1 e.2 := by
+      induction vs with
+      | nil => exact ⟨[], rfl, by simp⟩
+      | cons a as ih =>
+        obtain ⟨es, hm, he⟩ := ih (fun v' hv' => hc v' (by simp [hv']))
+        obtain ⟨b, hb⟩ := Ty.rt t L E (some tg) a hwf' (hc a (by simp))
+        refine ⟨(a, b) :: es, by simp [hm], ?_⟩
+        intro e he'
+        simp only [List.mem_cons] at he'
+        rcases he' with rfl | h
+        · exact hb
+        · exact he e h
+    obtain ⟨es, rfl, hes⟩ := helems
+    have hpres : ∀ e ∈ es, Present e.1 := fun e he =>
+      plain_canon_present t hpl L E (some tg) e.1 (hc e.1 (List.mem_map_of_mem he))
+    have hne : ∀ e ∈ es, e.2 ≠ [] := fun e he => ((hes e he).tagged tg rfl (hpres e he)).1
+    refine ⟨es.flatMap (·.2), ⟨?_, ?_, ?_, ?_⟩⟩
+    · simp only [Ty.ser]; exact serListWith_ok _ es (fun e he => (hes e he).ser)
+    · intro _ x hx
+      simp only [Ty.follow] at hx
+      have hx' : NoStart tg x := hx
+      simp only [Ty.de]
+      have := vecLoop_elems (fun y => Ty.de t L E (some tg) y) x (plain_de_noStart t hpl L E tg x hx') es
+        ((es.flatMap (·.2) ++ x).length + 1) []
+        (fun e he => ⟨hne e he, fun y => (hes e he).de (hpres e he) y (by rw [hfo']; trivial)⟩)
+        (by have := length_le_flatMap es hne; simp only [List.length_append]; omega)
+      simpa using this
+    · intro tg' htg' hp
+      cases htg'
+      cases es with
+      | nil => simp [Present] at hp
+      | cons e es' =>
+        obtain ⟨h1, h2⟩ := (hes e (by simp)).tagged tg rfl (hpres e (by simp))
+        constructor
+        · simp only [List.flatMap_cons]
+          cases hb : e.2 with
+          | nil => exact absurd hb h1
+          | cons a as => simp
+        · intro x
+          simp only [List.flatMap_cons, List.append_assoc]
+          exact h2 _
+    · intro hp
+      cases es with
+      | nil => exact ⟨rfl, rfl, rfl⟩
+      | cons e es' => exact absurd (by simp [Present]) hp
+  | .struct fs, L, E, tag, v, hwf, hc => by
+    simp only [Ty.wf, Bool.and_eq_true] at hwf
+    obtain ⟨⟨htg, hL⟩, hfw⟩ := hwf
+    simp only [Ty.canon] at hc
+    cases v <;> simp only [] at hc <;> try (exact False.elim hc)
+    rename_i vs
+    obtain ⟨hfc, hlen⟩ := hc
+    obtain ⟨D, hD, hDf, hDv, hDt⟩ := fields_rt fs vs hfw hfc
+    obtain ⟨henc, hdec, hsuf⟩ := decomp_rt D hD
+    rw [hDf, hDv] at henc hdec hsuf
+    exact struct_field_of_payload fs vs D.bytes henc hdec
+      (fun htr x => hsuf (hDt htr).1 (hDt htr).2 x) L E tag htg hL (hlen D.bytes henc)
+/-- **Every well-formed field list splits** into positional self-delimiting fields, at most one trailing field
+that takes everything, and tagged fields with distinct numbers — each of them round-tripping. -/
+theorem fields_rt : ∀ (fs : List Field) (vs : List Val), fieldsWf fs = true → fieldsCanon fs vs →
+    ∃ D : Decomp, D.OK ∧ D.fields = fs ∧ D.vals = vs ∧ (fieldsTransparent fs = true → D.g = none ∧ D.qs = [])
+  | [], vs, _, hc => by
+    simp only [fieldsCanon] at hc; subst hc
+    exact ⟨⟨[], none, []⟩, ⟨by simp, by simp [Decomp.gl], fun _ => rfl, by simp, by simp⟩, rfl, rfl, fun _ => ⟨rfl, rfl⟩⟩
+  | .mk name tag L E ty :: fs, vs, hwf, hc => by
+    simp only [fieldsWf, Bool.and_eq_true] at hwf
+    obtain ⟨⟨hty, hfs⟩, hcond⟩ := hwf
+    simp only [fieldsCanon] at hc
+    cases vs with
+    | nil => exact False.elim hc
+    | cons v vs' =>
+      simp only at hc
+      obtain ⟨hcv, hcf⟩ := hc
+      obtain ⟨bytes, hrt⟩ := Ty.rt ty L E tag v hty hcv
+      obtain ⟨D', hD', hf', hv', ht'⟩ := fields_rt fs vs' hfs hcf
+      cases tag with
+      | none =>
+        have hpres := pos_canon_present ty L E v hty hcv
+        simp only [Bool.or_eq_true, beq_iff_eq] at hcond
+        by_cases hany : Ty.follow ty L E none = .any
+        · refine ⟨⟨⟨.mk name none L E ty, v, bytes⟩ :: D'.ps, D'.g, D'.qs⟩, ⟨?_, hD'.g, hD'.gq, hD'.qs, hD'.nd⟩, ?_, ?_, ?_⟩
+          · intro p hp
+            simp only [List.mem_cons] at hp
+            rcases hp with rfl | hp
+            · exact ⟨rfl, hrt.ser, fun x => hrt.de hpres x (by rw [hany]; trivial)⟩
+            · exact hD'.ps p hp
+          · rw [← hf']; rfl
+          · rw [← hv']; rfl
+          · intro htr
+            simp only [fieldsTransparent, Bool.and_eq_true] at htr
+            exact ht' htr.2
+        · have hfs0 : fs = [] := by
+            rcases hcond with h | h
+            · exact absurd h hany
+            · simpa using h
+          subst hfs0
+          simp only [fieldsCanon] at hcf
+          subst hcf
+          refine ⟨⟨[], some ⟨.mk name none L E ty, v, bytes⟩, []⟩, ⟨by simp, ?_, fun _ => rfl, by simp, by simp⟩, rfl, rfl, ?_⟩
+          · intro p hp
+            simp only [Decomp.gl, List.mem_singleton] at hp
+            subst hp
+            have := hrt.de hpres [] (follow_holds_nil _)
+            rw [List.append_nil] at this
+            exact ⟨rfl, hrt.ser, this⟩
+          · intro htr
+            simp only [fieldsTransparent, Bool.and_eq_true, beq_iff_eq] at htr
+            exact absurd htr.1.2 hany
+      | some t =>
+        simp only [Bool.and_eq_true, List.all_eq_true, bne_iff_ne, ne_eq] at hcond
+        obtain ⟨hall, hne⟩ := hcond
+        obtain ⟨hps0, hg0⟩ := allTagged_decomp D' hD' (by rw [hf']; intro f hf; exact (hall f hf).1)
+        have hfsq : fs = D'.qs.map (·.f) := by
+          rw [← hf']; simp [Decomp.fields, Decomp.gl, hps0, hg0]
+        have hvsq : vs' = D'.qs.map (·.v) := by
+          rw [← hv']; simp [Decomp.vals, Decomp.gl, hps0, hg0]
+        let q : TF := { f := .mk name (some t) L E ty, t := t, v := v, bytes := bytes,
+                        present := decide (Present v), strict := decide (Ty.follow ty L E (some t) = .any) }
+        have hq : q.OK := by
+          refine ⟨rfl, hrt.ser, ?_⟩
+          by_cases hp : Present v
+          · have hpd : q.present = true := by simp [q, hp]
+            simp only [hpd, if_true]
+            obtain ⟨h1, h2⟩ := hrt.tagged t rfl hp
+            refine ⟨h1, h2, ?_⟩
+            intro x hx
+            apply hrt.de hp x
+            cases hF : Ty.follow ty L E (some t) with
+            | any => trivial
+            | endOnly => exact absurd hF hne
+            | noStart t' =>
+              have := follow_noStart ty L E t t' hF
+              subst this
+              rcases hx with hx | hx
+              · simp [q, hF] at hx
+              · exact hx
+          · have hpd : q.present = false := by simp [q, hp]
+            simp only [hpd, Bool.false_eq_true, if_false]
+            exact hrt.absent hp
+        refine ⟨⟨[], none, q :: D'.qs⟩, ⟨by simp, by simp [Decomp.gl], fun h => absurd rfl h, ?_, ?_⟩, ?_, ?_, ?_⟩
+        · intro r hr
+          simp only [List.mem_cons] at hr
+          rcases hr with rfl | hr
+          · exact hq
+          · exact hD'.qs r hr
+        · simp only [List.map_cons, List.nodup_cons]
+          refine ⟨?_, hD'.nd⟩
+          intro hm
+          simp only [List.mem_map] at hm
+          obtain ⟨r, hr, hrt'⟩ := hm
+          have hrf : r.f ∈ fs := by rw [hfsq]; exact List.mem_map_of_mem hr
+          have h1 := (hall r.f hrf).2
+          rw [(hD'.qs r hr).1, hrt'] at h1
+          exact h1 rfl
+        · simp only [Decomp.fields, Decomp.gl, List.map_nil, List.nil_append, List.map_cons]
+          rw [hfsq]
+        · simp only [Decomp.vals, Decomp.gl, List.map_nil, List.nil_append, List.map_cons]
+          rw [hvsq]
+        · intro htr
+          simp [fieldsTransparent] at htr
+end
+
+end Zvt
+
+namespace Zvt
+
+/-! ### packets -/
+
+/-- well-formed packet type: well-formed fields, class and instruction are bytes. -/
+def structWf (s : StructDef) : Bool :=
+  fieldsWf s.fields &&
+  (match s.ctrl with
+   | none => true
+   | some c => decide (c.1 < 256) && decide (c.2 < 256))
+
+/-- **Canonical values of a packet type**: a struct value whose fields are canonical and whose body fits an APDU. -/
+def StructDef.canon (s : StructDef) (v : Val) : Prop :=
+  ∃ vs, v = .struct vs ∧ fieldsCanon s.fields vs ∧ ∀ p, encFields s.fields vs = .ok p → p.length ≤ 65535
+
+theorem command_of_payload (s : StructDef) (c : Nat × Nat) (hc : s.ctrl = some c) (h0 : c.1 < 256) (h1 : c.2 < 256)
+    (vs : List Val) (p : Bytes) (henc : encFields s.fields vs = .ok p)
+    (hdec : decStruct s.fields p = .ok (.struct vs, [])) (hfit : p.length ≤ 65535) :
+    ∃ bytes, encodeCmd s (.struct vs) = .ok bytes ∧ ∀ x, decodeCmd s (bytes ++ x) = .ok (.struct vs, x) := by
+  have hstrip : ∀ rest, stripTag tagDecBE (some (ctrlTag c)) (tagPrefix tagEncBE (some (ctrlTag c)) ++ rest) = .ok rest := by
+    intro rest
+    simp only [stripTag, tagPrefix]
+    rw [tagDecBE_tagEncBE _ (by simp only [ctrlTag]; omega) rest]
+    simp
+  obtain ⟨bytes, hs, _, _⟩ := deserTagged_serTagged' tagEncBE tagDecBE .adpu (some (ctrlTag c)) hstrip p []
+    (show LenFits .adpu _ from hfit) (fun q => decStruct s.fields q) (.struct vs) (by simpa [seenPayload] using hdec)
+  refine ⟨bytes, by simp only [encodeCmd, hc, henc]; exact hs, ?_⟩
+  intro x
+  obtain ⟨bytes', hs', hd', _⟩ := deserTagged_serTagged' tagEncBE tagDecBE .adpu (some (ctrlTag c)) hstrip p x
+    (show LenFits .adpu _ from hfit) (fun q => decStruct s.fields q) (.struct vs) (by simpa [seenPayload] using hdec)
+  rw [hs] at hs'
+  have : bytes = bytes' := Except.ok.inj hs'
+  rw [this]; simp only [decodeCmd, hc]; exact hd'
+
+/-- **C01, generic**: for every well-formed packet type and every canonical value,
+`zvt_deserialize (zvt_serialize v) = (v, [])`; for command types (with control field) whatever follows the
+packet is handed back untouched. -/
+theorem packet_roundtrip (s : StructDef) (hwf : structWf s = true) (v : Val) (hc : s.canon v) :
+    ∃ bytes, encodeCmd s v = .ok bytes ∧ decodeCmd s bytes = .ok (v, []) ∧
+      (s.ctrl.isSome = true → ∀ x, decodeCmd s (bytes ++ x) = .ok (v, x)) := by
+  simp only [structWf, Bool.and_eq_true] at hwf
+  obtain ⟨hfw, hctrl⟩ := hwf
+  obtain ⟨vs, rfl, hfc, hlen⟩ := hc
+  obtain ⟨D, hD, hDf, hDv, hDt⟩ := fields_rt s.fields vs hfw hfc
+  obtain ⟨henc, hdec, hsuf⟩ := decomp_rt D hD
+  rw [hDf, hDv] at henc hdec hsuf
+  cases hcs : s.ctrl with
+  | some c =>
+    rw [hcs] at hctrl
+    simp only [Bool.and_eq_true, decide_eq_true_eq] at hctrl
+    obtain ⟨bytes, hs, hd⟩ := command_of_payload s c hcs hctrl.1 hctrl.2 vs D.bytes henc hdec (hlen _ henc)
+    refine ⟨bytes, hs, by simpa using hd [], fun _ x => hd x⟩
+  | none =>
+    obtain ⟨bytes, hrt⟩ := struct_field_of_payload s.fields vs D.bytes henc hdec
+      (fun htr x => hsuf (hDt htr).1 (hDt htr).2 x) .empty .dflt none rfl rfl trivial
+    refine ⟨bytes, by simp only [encodeCmd, hcs, encodePlain]; exact hrt.ser, ?_, fun h => by simp at h⟩
+    have := hrt.de (by simp [Present]) [] (follow_holds_nil _)
+    rw [List.append_nil] at this
+    simp only [decodeCmd, hcs, decodePlain]; exact this
+
+end Zvt
